@@ -153,8 +153,9 @@ Definition run_pfcase (ts : list (list (nat * nat))) (fscripts : list fscript) :
 
 (* mode 7 (round 5, second pass): the PROCESSOR model of C12/ProcModel.v on the walker regenerated from processor.rs /
    minidump-unwind (Gen/C12Processor.v).  The case's dump has one thread per task and one frame per lookup, each frame inside
-   its module and outside the module's CFI ranges: walk_stack asks fill_symbol for the frame's module, get_caller_frame
-   asks walk_frame for the same module (and then follows the frame pointer).  The answers per frame are the two
+   its module and outside the module's CFI ranges: walk_stack asks fill_symbol for the frame's module, get_caller_frame's CFI
+   attempt asks walk_frame for the same module ([cfi_lookups] on the regenerated x86 get_caller_by_cfi) and then follows the
+   frame pointer.  The answers per frame are the two
    identical ones of these lookups ([evens] keeps one); the stats are the snapshot of the LAST stats read of
    into_process_state (after the join_all). *)
 From RM Require Import C12.ProcModel Gen.C12Processor.
@@ -164,7 +165,8 @@ Fixpoint evens {A : Type} (l : list A) : list A :=
   | [] => []
   end.
 Definition run_proccase (ts : list (list key)) (scripts : list script) (nleaf : nat) : c12_out :=
-  let d := map (map (fun k => {| f_module := Some k; f_caller := [(EWalk, k)] |})) ts in
+  let x86 := src_cfi_x86 in
+  let d := map (map (fun k => {| f_module := Some k; f_caller := cfi_lookups x86 src_cfi_module (Some k) |})) ts in
   let base := mk_config [] scripts in
   let pc := proc_pc src_walker d base in
   match process src_program src_walker d base (S (work (cfg pc))) with
